@@ -169,6 +169,7 @@ func baseHistory(p *sim.Plan) *history {
 // caseWorld is the small world of one case.
 type caseWorld struct {
 	w      *sim.World
+	goBase int64 // git-bug goroutines alive when the case began
 	honest *sim.Replica
 	victim *sim.Replica
 	adv    *repository.GoGitRepo // adversary's handle on hub1 (the hostile remote)
@@ -178,7 +179,7 @@ type caseWorld struct {
 
 func newCaseWorld(p *sim.Plan, st *sim.Step, keep bool) (*caseWorld, error) {
 	w := sim.NewWorld(sim.Mix(p.RunSeed, uint64(st.Id)), keep)
-	cw := &caseWorld{w: w}
+	cw := &caseWorld{w: w, goBase: verifrt.LiveGoroutines()}
 	hub := w.AddHub("hub0")
 	hub1 := w.AddHub("hub1")
 	cw.honest = w.AddReplica("honest", "entity", 1_690_000_000)
@@ -671,7 +672,7 @@ func (e *Engine) bugCase(p *sim.Plan, st *sim.Step, res *sim.RunResult, keep boo
 	preRefs, preOps := localState(cw.victim.Raw)
 	outs, pullErr := cw.victimPull("hub1")
 	postRefs, postOps := localState(cw.victim.Raw)
-	panics := verifrt.TakePanicsQuiesced()
+	panics := verifrt.TakePanicsQuiesced(cw.goBase)
 	for _, pr := range panics {
 		add("panic", "panic in %s: %s", pr.Site, pr.Value)
 	}
@@ -936,7 +937,7 @@ func (e *Engine) localCase(p *sim.Plan, st *sim.Step, res *sim.RunResult, keep b
 		}
 		return err
 	})
-	for _, pr := range verifrt.TakePanicsQuiesced() {
+	for _, pr := range verifrt.TakePanicsQuiesced(cw.goBase) {
 		add("panic in %s: %s", pr.Site, pr.Value)
 	}
 	return vs, "local"
